@@ -232,7 +232,39 @@ def probe_scf_reference(inp: Dict[str, Any]) -> Dict[str, Any]:
             "fields": {"kinds": ["scf_reference"] if bad else [], "method": inp["method"], "converger": inp["converger"][0], "scf_backward": inp.get("scf_backward", 0)}}
 
 
-PROBES = {"fock_properties": probe_fock_properties, "scf_reference": probe_scf_reference}
+def probe_near_axis(inp: Dict[str, Any]) -> Dict[str, Any]:
+    """the published model knows no preferred direction: the energies of a molecule one of whose bonds lies a SMALL angle off the +x or -x axis (the
+    direction the local frames are built from) equal those of the same molecule in a generic orientation (whose value the oracle strata certify).
+    Angles start outside the cone of known finding F2 (4.5e-4 rad), where the package's frame is exact."""
+    nm = inp["name"]
+    z, x0 = esh.geom(nm)
+    x0 = np.asarray(x0, dtype=float)
+    sp = esh.settings(method=inp["method"], eps=1e-11, converger=[1])
+    rng = np.random.default_rng(inp["seed"])
+    ref = esh.run(np.array([z]), np.array([x0 @ esh.random_rotation(rng).T]), sp)
+    b = x0[inp["bond"][1]] - x0[inp["bond"][0]]
+    b = b / np.linalg.norm(b)
+    # rotation taking the bond direction to the unit vector at angle theta from +-x in a random azimuth
+    th, phi = float(inp["theta"]), float(rng.uniform(0, 2 * np.pi))
+    tgt = np.array([inp["sign"] * np.cos(th), np.sin(th) * np.cos(phi), np.sin(th) * np.sin(phi)])
+    v = np.cross(b, tgt)
+    c = float(b @ tgt)
+    if np.linalg.norm(v) < 1e-12:
+        R = np.eye(3) if c > 0 else -np.eye(3)
+    else:
+        K = np.array([[0, -v[2], v[1]], [v[2], 0, -v[0]], [-v[1], v[0], 0]])
+        R = np.eye(3) + K + K @ K * (1.0 / (1.0 + c))
+    r = esh.run(np.array([z]), np.array([x0 @ R.T]), sp)
+    bad = []
+    for k in ("Etot", "Eelec", "Enuc", "Hf"):
+        d = abs(float(r[k][0]) - float(ref[k][0]))
+        if d > 2e-8:
+            bad.append(f"{k} differs by {d:.3e} eV from the value in a generic orientation (bond {inp['bond']} at {th:.1e} rad from {'+' if inp['sign'] > 0 else '-'}x)")
+    return {"ok": not bad, "observed": bad or ["equal within 2e-8 eV"], "expected": "orientation-independent energies outside the F2 cone", "predicate": "|E(near axis) - E(generic)| <= 2e-8 eV",
+            "fields": {"kinds": ["near_axis"] if bad else [], "method": inp["method"], "theta": th}}
+
+
+PROBES = {"fock_properties": probe_fock_properties, "scf_reference": probe_scf_reference, "near_axis": probe_near_axis}
 
 
 def corr_fock_blocks(ctx: Ctx, drv):
@@ -427,6 +459,16 @@ def run(ctx: Ctx):
             continue
         ctx.probe_case("scf_reference", c, r["ok"], fields=r["fields"], observed=r["observed"], expected=r["expected"], predicate=r["predicate"], stratum=f"{c['method']}/sb{c['scf_backward']}/conv{c['converger'][0]}",
                        nontrivial=not r["fields"].get("skipped", False))
+    ncases = []
+    for i in range(12 if ctx.thorough else 4):
+        nm = ["h2o", "nh3", "ch2o", "hf", "hcn", "ch4"][int(rng.integers(0, 6))]
+        ncases.append({"name": nm, "method": ["AM1", "MNDO", "PM3", "PM6_SP"][i % 4], "bond": [[0, 1], [1, 0]][i % 2], "sign": [1, -1][(i // 2) % 2],
+                       "theta": float(rng.choice([6e-4, 1e-3, 2e-3, 4e-3, 1e-2])), "seed": int(rng.integers(0, 10**6))})
+    for c, r in zip(ncases, mdh.pmap(probe_near_axis, ncases, timeout=900)):
+        if isinstance(r, Exception) or r is None:
+            ctx.obligation("probe near_axis evaluated", False, repr(r)[-1500:], kind="harness")
+            continue
+        ctx.probe_case("near_axis", c, r["ok"], fields=r["fields"], observed=r["observed"], expected=r["expected"], predicate=r["predicate"], stratum=f"{c['method']}/{'+' if c['sign'] > 0 else '-'}x")
     for c, r in zip(pcases, mdh.pmap(probe_fock_properties, pcases)):
         if isinstance(r, Exception) or r is None:
             ctx.obligation("probe fock_properties evaluated", False, repr(r)[-1500:], kind="harness")
